@@ -2,6 +2,7 @@ import Rare.Drv.Expr
 import Rare.Spec.C17Wf
 import Rare.Spec.C17Wrap
 import Rare.Spec.C17Atoi
+import Rare.Model.C17Pool
 /-!
 Ops of C17 (besides the shared `expr` op):
 
@@ -22,6 +23,12 @@ Ops of C17 (besides the shared `expr` op):
        spec slice <arr> <start> <len | -> | spec range <start> <stop> <incr> | spec in <v> <arr>
        spec reduce <arr> <reducer id> <init | - | e>  (`-`: no third argument, `e`: an explicit `""`) `C17.reduce` with the reducer as a Lean function (`redFn`; the
                                                       harness runs the template of the same id)
+  pool <size> <script>                               the model of `slicepool.ObjectPool` (`Model/C17Pool.lean`): the object
+                                                     every `Get` of the script hands out (`g`, `r<k>` = Return of the
+                                                     k-th Get's object), objects named by first appearance
+  overlap <opt> <template> <script> (<elems> <keys>)+ W workers with their own contexts whose evaluations overlap as
+                                                     scripted: the pool is invisible, so the answer is the W `expr`
+                                                     answers computed one after the other
        (`spec select` / `spec slice` also evaluate the all-lists forms `selectW` / `sliceW` of
        `Spec/C17Wrap.lean` and answer `spec-disagree` unless they coincide with `select` / `pack ∘ slice`)
 -/
@@ -115,8 +122,90 @@ def specHandle : List String → String
     | _, _ => "bad-args"
   | _ => "bad-op"
 
+def parseScript (s : String) : Option (List C17Pool.Ev) :=
+  (s.splitOn ",").filter (· ≠ "") |>.mapM fun e =>
+    if e = "g" then some .get
+    else if e.startsWith "r" then (e.drop 1).toNat?.map .ret
+    else none
+
+def pairs : List String → Option (List (String × String))
+  | [] => some []
+  | a :: b :: r => (pairs r).map ((a, b) :: ·)
+  | _ => none
+
+/-! ### A work budget for `@for` (driver only)
+
+A template whose `@for` condition never turns false with values that GROW (what deleting a byte from a generated
+template easily produces, e.g. while a failing case is being minimised) runs for a million rounds over ever longer
+strings: the real code is stopped by the harness' watchdog (`hang`), the model would compute for hours.  Before
+the model proper runs, templates that mention `@for` are evaluated once with this budgeted twin of `forLoop`
+(identical, except that it gives up – `unmodelled for-budget` – after `cap` rounds or 4 MB written by one loop).
+The generators never produce such a template, so an `unmodelled for-budget` answer on a generated case shows up
+in the statistics of skipped cases. -/
+
+def forLoopB (cap : Nat) (cond incr : Stage) : Nat → Bytes → Nat → Sb → Stage
+  | 0, _, _, _ => .panic "unmodelled:for-budget"
+  | fuel + 1, val, idx, sb =>
+    let sIdx := itoa (idx : Nat)
+    (cond.withSub val sIdx).bind fun c =>
+      if !truthy c then .ret sb.str
+      else
+        let sb := if idx > 0 then sb.write ArraySeparatorString else sb
+        let sb := sb.write val
+        (incr.withSub val sIdx).bind fun val' =>
+          let idx := idx + 1
+          if idx > Gen.maxIterations then .ret InfMarker
+          else if idx > cap || sb.len > 4194304 then .panic "unmodelled:for-budget"
+          else forLoopB cap cond incr fuel val' idx sb
+
+def kfArrayForB (cap : Nat) : Builder := fun args =>
+  match args with
+  | [a0, a1, a2] => ok (a0.bind fun val => forLoopB cap a1 a2 (Gen.maxIterations + 2) val 0 {})
+  | _ => errArgCount
+
+def countFor (t : String) : Nat := (t.splitOn "@for").length - 1
+
+/-- `none` = within budget. -/
+def forBudget (o t el ks : String) : Option String :=
+  match Hex.dec t, decHexList el, decHexList ks with
+  | some tb, some elems, some keys =>
+    let c := countFor (String.fromUTF8! (ByteArray.mk tb.toArray |>.foldl (fun a b => a.push (if b < 128 then b else 63)) ByteArray.empty))
+    if c = 0 then none else
+    let cap := if c = 1 then Gen.maxIterations else if c = 2 then 1000 else if c = 3 then 100 else 30
+    let reg := mkRegistry (("@for", kfArrayForB cap) :: stdTable) Gen.stdFunctionNames
+    match Rare.Drv.Expr.decodeTemplate tb with
+    | some tc =>
+      let a := Rare.Drv.Expr.evalWith reg (o == "1") tc (Rare.Drv.Expr.mkCtx elems keys)
+      if a = "unmodelled for-budget" then some a else none
+    | none => none
+  | _, _, _ => none
+
+def exprGuarded (o t el ks : String) : String :=
+  match forBudget o t el ks with
+  | some a => a
+  | none =>
+    match Rare.Drv.Expr.handle ["expr", o, t, el, ks] with
+    | some a => a
+    | none => "bad-op"
+
 def handle (args : List String) : String :=
   match args with
+  | ["expr", o, t, el, ks] => exprGuarded o t el ks
+  | ["pool", size, script] =>
+    match size.toNat?, parseScript script with
+    | some n, some evs =>
+      let got := C17Pool.canon (C17Pool.runScript evs (C17Pool.Pool.new n) []) []
+      if got.isEmpty then "ok ." else "ok " ++ ",".intercalate (got.map toString)
+    | _, _ => "bad-args"
+  | "overlap" :: o :: t :: _script :: ctxs =>
+    match pairs ctxs with
+    | some ps =>
+      if ps.isEmpty then "bad-args" else
+      let answers := ps.map fun (el, ks) => exprGuarded o t el ks
+      match answers.find? (fun a => !(a.startsWith "ok ") && a ≠ "panic") with
+      | some a => a
+      | none => "ok " ++ " | ".intercalate answers
+    | none => "bad-args"
   | ["splitter", s, d] =>
     match Hex.dec s, Hex.dec d with
     | some sb, some db =>
@@ -133,19 +222,14 @@ def handle (args : List String) : String :=
         | none => "err"
     | none => "bad-args"
   | ["wf", o, t, el, ks] =>
-    match Rare.Drv.Expr.handle ["expr", o, t, el, ks] with
-    | some a =>
-      if a.startsWith "ok " then
-        match valOf a with
-        | some v => "ok " ++ listView v
-        | none => "bad-answer"
-      else a
-    | none => "bad-op"
+    let a := exprGuarded o t el ks
+    if a.startsWith "ok " then
+      match valOf a with
+      | some v => "ok " ++ listView v
+      | none => "bad-answer"
+    else a
   | "spec" :: rest => specHandle rest
-  | ["conc", _, _, o, t, el, ks] =>
-    match Rare.Drv.Expr.handle ["expr", o, t, el, ks] with
-    | some a => a
-    | none => "bad-op"
+  | ["conc", _, _, o, t, el, ks] => exprGuarded o t el ks
   | _ =>
     match Rare.Drv.Expr.handle args with
     | some a => a
